@@ -404,7 +404,7 @@ func c13Items(env *core.Env) []c13Item {
 	}
 	// string grammar
 	strs := []string{"1", "0", "-1", "+1", " 1", "1 ", "01", "1.0", "0.0", "1.00", "1.", ".5", "1e3", "1E3", "0x10", "2147483647", "2147483648", "-2147483648", "-2147483649", "99999999999", "1,5",
-		"true", "false", "TRUE", "t", "T", "f", "yes", "YES", "no", "y", "n", "Y", "maybe", "tru", "1.0", "0.00",
+		"true", "false", "TRUE", "t", "T", "f", "yes", "YES", "no", "y", "n", "Y", "maybe", "tru", "tRUE", "TrUe", "fALSE", "FaLsE", "yEs", "nO", "True", "False", "F", "N", "NO", "1.0", "0.00",
 		"2020", "2020-01", "2020-01-02", "2020-13-01", "2020-02-30", "2020-1-1", "20200101", "2020-01-02T", "2020T", "2020-01T", "@2020", "2020-01-02T10", "2020-01-02T10:30", "2020-01-02T10:30:00", "2020-01-02T10:30:00.123", "2020-01-02T10:30:00Z", "2020-01-02T10:30:00+05:30", "2020-01-02T10:30:00.123-11:00", "2020-01-02T24:00:00", "2020-01-02T10:60", "2020-01-02 10:30", "2020-01-02T10:30:00+25:00", "2020-01-02T10:30:00.1234Z", "2020-01-02T10Z",
 		"10", "10:30", "10:30:00", "10:30:00.123", "24:00", "25:00", "10:60", "10:30:60", "T10:30", "@T10:30", "1:30", "10:30:00.1", "10:30Z",
 		"5", "5 'mg'", "5'mg'", "5 mg", "5 days", "5 day", "5.5 'kg'", "+5 'mg'", "-5.0 'mg'", "5 'mg", "'mg'", "mg", "5  'mg'", "5 'kg/m2'", "5 '1'", "5\t mg", "5\tmg", "1.5\r days", "5 'm g'", "5\n'mg'", "5 \t 'mg'", "1 year", "1 'wk'", "five", "5 5", "",
